@@ -31,16 +31,27 @@ class GhostRng:
     """numpy Generator abstracted to (stream id, position); deep-copyable (pickling)."""
 
     class BG:
+        """bit generator whose .state has the layout of numpy's: the position in the stream under "state", and the buffered half-word
+        (has_uint32 / uinteger for PCG64, buffer / buffer_pos for Philox) next to it -- all of it changes as numbers are drawn"""
+
         def __init__(self, stream, pos):
-            self.state = (stream, pos)
+            self.state = GhostRng.state_at(stream, pos)
 
     def __init__(self, stream, pos=0):
         self.bit_generator = GhostRng.BG(stream, pos)
         self.bit_generator._pv_setattr = lambda ex, name, v, _bg=self.bit_generator: setattr(_bg, name, v)
 
+    @staticmethod
+    def state_at(stream, pos):
+        return {"bit_generator": "GhostBitGenerator", "state": (stream, pos), "has_uint32": pos % 2, "uinteger": f"buffered-half-word<{stream},{pos}>"}
+
+    @property
+    def position(self):
+        return self.bit_generator.state["state"][1]
+
     def draw(self, n=1):
-        s, p = self.bit_generator.state
-        self.bit_generator.state = (s, p + n)
+        s, p = self.bit_generator.state["state"]
+        self.bit_generator.state = GhostRng.state_at(s, p + n)
 
     def _pv_getattr(self, ex, name):
         if name == "bit_generator":
@@ -96,6 +107,40 @@ def per_chain_rngs(run, it):
                    detail="" if okp else f"{srcs}", text="chain c is driven by jumped(c) / spawn()[c] of the base generator, whatever the number of chains")
     it.explore(h, "_get_per_chain_rngs", roots=[[k, n] for k in range(4) for n in range(4)])
     it.overrides.pop((MOD, "default_rng"), None)
+
+
+def stream_derivation(run, it):
+    """relational obligation over two runs of the real sample_chains / _get_per_chain_rngs (self-composition): the same three-stage call with 2 and with 3
+    chains on the same jump-capable base generator.  Which random stream drives chain c in stage k must be the same in both runs (independent of how many
+    other chains are run), no stream may be handed to two chains, and a stream is never handed out again (replayed) within a run."""
+    tag = "C14/" + P + "sample_chains/streams"
+    probe = {}
+    for n in (2, 3):
+        samplers_stage.stage_loop(run, "C14", it, nch=n, stream_probe=probe)
+    a, b = probe.get(2), probe.get(3)
+    if not isinstance(a, list) or not isinstance(b, list):
+        run.ob(tag + "/derivation-decided", core.UNKNOWN, "pyvc", detail=f"stream probe did not complete: {a if not isinstance(a, list) else b}")
+        return
+    bad = []
+    for k, (ca, cb) in enumerate(zip(a, b)):
+        for c in range(2):
+            if ca[c][1] != cb[c][1]:
+                bad.append(f"stage call {k}, chain {c}: stream {ca[c][1]} when 2 chains are run, {cb[c][1]} when 3 chains are run")
+    ok = not bad and len(a) == len(b) == 3
+    run.ob(tag + "/stream-of-chain-c-in-every-stage-is-independent-of-the-number-of-chains", core.DISCHARGED if ok else core.FAILED, "pyvc", detail="; ".join(bad[:3]),
+           witness={"chain_counts": [2, 3]}, text="for every stage k and chain c < 2: the generator source of (k, c) is the same expression of the base generator in the 2-chain and the 3-chain run")
+    bad2 = []
+    for n, calls in ((2, a), (3, b)):
+        owner = {}
+        for k, call in enumerate(calls):
+            for c, (oid, stream) in enumerate(call):
+                prev = owner.get(stream)
+                if prev is not None and (prev[0] != c or prev[1] != oid):
+                    bad2.append(f"{n} chains: stream {stream} drives chain {prev[0]} (stage call {prev[2]}) and again chain {c} (stage call {k}) through "
+                                f"{'another' if prev[1] != oid else 'the same'} generator object")
+                owner.setdefault(stream, (c, oid, k))
+    run.ob(tag + "/no-stream-is-shared-between-chains-or-handed-out-twice", core.DISCHARGED if not bad2 else core.FAILED, "pyvc", detail="; ".join(bad2[:3]),
+           text="within a run a stream belongs to one chain; a later stage either continues the chain's generator object or uses a stream not handed out before")
 
 
 class _StillWaiting(Exception):
@@ -212,7 +257,7 @@ def parallel(run, it, prop="C14"):
         def sample_chain(ex_, **kw):
             c = kw["chain_index"]
             # the queue item was pickled on its way to the worker (A14): the worker holds copies
-            g["sampled"].append(dict(chain=c, init=kw["init_state"], rng_stream=kw["rng"].bit_generator.state, traces=kw["chain_traces"], common=kw.get("transitions")))
+            g["sampled"].append(dict(chain=c, init=kw["init_state"], rng_stream=kw["rng"].bit_generator.state["state"], traces=kw["chain_traces"], common=kw.get("transitions")))
             kw["rng"].draw(5)  # the chain consumes random numbers: the *worker's copy* of the generator advances
             _, n_iter, job, q = kw["chain_iterator"]
             if c == interrupt_chain or interrupt_all:
@@ -292,11 +337,13 @@ def parallel(run, it, prop="C14"):
         ctx.run.ob(tag + "/outputs-in-chain-order-for-every-completion-order", core.DISCHARGED if ok3 else core.FAILED, "pyvc",
                    detail="" if ok3 else f"pickup order {perm}: returned {states}", text="final states are returned sorted by chain index for every pickup/completion order")
         # threading invariant: the draws made by chain c in this stage are visible in the parent's generator c afterwards
-        stale = [c for c in range(NCH) if rngs[c].bit_generator.state[1] != 5]
+        # the WHOLE state: a generator restored to the right stream position but with a stale buffered half-word continues a different stream
+        stale = [c for c in range(NCH) if rngs[c].bit_generator.state != GhostRng.state_at(f"stream{c}", 5)]
         ctx.run.ob(tag + "/generator-state-flows-back-to-the-parent", core.DISCHARGED if not stale else core.FAILED, "pyvc",
                    witness={"chains_with_unadvanced_generators": stale},
                    detail="" if not stale else f"after a parallel stage in which every chain drew random numbers, the parent's generators of chains {stale} are at their "
-                   "old position (workers advance pickled copies and never return them): the next stage replays the same random stream",
+                   "old state or carry only part of the state their workers' copies ended in (stream position AND buffered half-word must both flow back): the next stage "
+                   "replays or leaves the random stream",
                    text="threading invariant: position of chain c's generator at the start of stage k+1 == position at the end of stage k (both chain functions)")
         okp = all(ci.update_calls for ci in iters)
         ctx.run.ob(tag + "/progress-messages-routed-to-own-bar", core.DISCHARGED if okp else core.FAILED, "pyvc")
@@ -331,7 +378,7 @@ def base_generator_use(run, it):
         system = Opaque("system", sample_momentum=Native(sample_momentum, "sample_momentum"))
 
         def mcmc_sample_chains(ex_, self_, n_w, n_m, init_states, **kw):
-            seen["base_position"] = base.bit_generator.state[1]
+            seen["base_position"] = base.position
             cls = mod.resolve("MCMCSampleChainsOutputs", ex_.ctx)
             return ex_.call(cls, [list(init_states), None, {}], {})
         it.call_contracts["MarkovChainMonteCarloMethod.sample_chains"] = Native(mcmc_sample_chains, "MarkovChainMonteCarloMethod.sample_chains")
@@ -422,6 +469,7 @@ def run(run_, tier):
     run_.replay_for("", lambda w: {"script": "c14_parallel.py", "args": [json.dumps(w or {})], "timeout": 900})
     per_chain_rngs(run_, it)
     samplers_stage.stage_loop(run_, "C14", it)
+    stream_derivation(run_, it)
     samplers_stage.sequential_loop(run_, it, "C14")
     parallel(run_, it)
     base_generator_use(run_, it)
